@@ -8,7 +8,7 @@ package yubiattest
 //vsym:model (*math/big.Int).BitLen m06BitLen
 //vsym:model math/big.NewInt m06NewInt
 //vsym:expect-cover C06.em.accept C06.em.reject C06.em.accept-with-null C06.em.accept-without-null
-//vsym:bound H06_em: modulus size k in {128} (quick) / {128,256,384,512} (thorough) plus the sizes tLen+9..tLen+13 of each hash; hash in {SHA1,SHA256,SHA384,SHA512}; every byte of the encoded message EM and of the digest symbolic; number of leading zero bytes of EM split 0..k
+//vsym:bound H06_em: modulus size k in {128} (quick) / {128,256,384,512} (thorough) plus the sizes tLen+9..tLen+13 of each hash; hash in {SHA1,SHA256,SHA384,SHA512}; every byte of the encoded message EM and of the digest symbolic; number of leading zero bytes of EM split 0..k; modulus of 8k or 8k-4 bits; optionally a genuine verification (same key size and hash) earlier in the same process
 //vsym:assume math/big is modelled: Exp yields an arbitrary k-byte EM (the adversary controls sig, hence EM is arbitrary below N), Bytes() is the minimal big-endian form, BitLen() = 8k
 
 //vsym:replay same-harness
@@ -23,6 +23,7 @@ import (
 var m06EM []byte      // minimal big-endian form of sig^e mod N
 var m06K int          // modulus size in bytes
 var m06Sig = []byte{1} // the signature bytes are irrelevant under the Exp model
+var nativePriv *rsa.PrivateKey
 
 func m06SetBytes(z *big.Int, buf []byte) *big.Int { return z }
 func m06NewInt(x int64) *big.Int                   { return new(big.Int) }
@@ -32,7 +33,9 @@ func m06Bytes(x *big.Int) []byte {
 	copy(out, m06EM)
 	return out
 }
-func m06BitLen(x *big.Int) int { return m06K * 8 }
+var m06Slack int // the modulus has 8k - slack bits
+
+func m06BitLen(x *big.Int) int { return m06K*8 - m06Slack }
 
 // OIDs of the digest algorithms (RFC 8017 appendix B.1), written here
 // independently of the tables in signature.go.
@@ -100,6 +103,8 @@ func H06_em() {
 	}
 	k := sizes[vChoose(len(sizes), "k")]
 	m06K = k
+	// a modulus of k bytes need not have 8k bits (e.g. a 1028-bit key: k = 129)
+	m06Slack = 4 * vChoose(2, "modulus-bits-short-of-8k")
 
 	// EM: lz leading zero bytes (Bytes() strips them), then symbolic bytes
 	lz := vChoose(3, "leading-zeros") // 0, 1, or 2-and-more
@@ -115,7 +120,7 @@ func H06_em() {
 	case 2:
 		copy(em[2:], rest[2:])
 	}
-	vAssume(em[0] < 0x80) // EM = sig^e mod N < N; stated bound em < 2^(8k-1)
+	vAssume(em[0] < byte(0x80>>uint(m06Slack))) // EM = sig^e mod N < N; stated bound em < 2^(bits-1)
 	switch lz {
 	case 0:
 		m06EM = em
@@ -141,12 +146,34 @@ func H06_em() {
 	if vIsNative() {
 		// replay against the real math/big: a real key of k bytes and the
 		// signature em^d mod N
-		priv, gerr := rsa.GenerateKey(rand.Reader, k*8)
+		priv, gerr := rsa.GenerateKey(rand.Reader, k*8-m06Slack)
 		if gerr != nil {
 			panic(gerr)
 		}
 		pub = &priv.PublicKey
 		sig = new(big.Int).Exp(new(big.Int).SetBytes(em), priv.D, priv.N).Bytes()
+		nativePriv = priv
+	}
+
+	// a genuine attestation verified earlier in the same process must not
+	// change the verdict on this one
+	if k >= tLen1+11 && vChoose(2, "genuine-verification-first") == 1 {
+		good := make([]byte, k)
+		good[1] = 1
+		for i := 2; i < k-tLen1-1; i++ {
+			good[i] = 0xff
+		}
+		copy(good[k-tLen1:], p1)
+		zero := make([]byte, hLen)
+		saved := m06EM
+		m06EM = good[1:]
+		gsig := m06Sig
+		if vIsNative() {
+			gsig = new(big.Int).Exp(new(big.Int).SetBytes(good), nativePriv.D, nativePriv.N).Bytes()
+		}
+		gerr := verifyPKCS1v15(pub, h, zero, gsig)
+		vAssert(gerr == nil, "C06.genuine-signature-accepted")
+		m06EM = saved
 	}
 
 	err := verifyPKCS1v15(pub, h, digest, sig)
